@@ -4,7 +4,7 @@
    jailed flag were changed in the block, or that the max_validators cut-off moved.) *)
 From stdpp Require Import gmap.
 Require Import Model.Base Model.Ante Model.Validate Model.Current Model.State Model.Staking Model.Slashing Model.Poa Model.App.
-Require Import proofs.Inv proofs.InvIdx proofs.L1Effects proofs.InvPres proofs.InvMsgs proofs.InvHistory proofs.InvComet proofs.InvElig proofs.InvLive.
+Require Import proofs.EvBasic proofs.Inv proofs.InvIdx proofs.L1Effects proofs.InvPres proofs.InvMsgs proofs.InvHistory proofs.InvComet proofs.InvElig proofs.InvLive.
 Open Scope Z_scope.
 
 Definition new_power (p : Z) : option Z := if p =? 0 then None else Some p.
@@ -196,8 +196,8 @@ Proof.
   intros [HCI Hrel] Hh. unfold run_block. rewrite Hh.
   set (c0 := with_clock (w_chain w) (height (w_chain w) + 1) (now (w_chain w) + b_dt b)).
   assert (H0 : CI c0) by (apply CI_clock; exact HCI).
-  destruct (begin_block c0 _ (b_absent b)) as [c1|e] eqn:Eb; [|discriminate].
-  pose proof (begin_block_CI _ _ _ _ H0 Eb) as H1. pose proof (begin_block_MS _ _ _ _ Eb) as M1.
+  destruct (begin_block c0 _ (b_absent b) (b_evidence b)) as [c1|e] eqn:Eb; [|discriminate].
+  pose proof (begin_block_CI _ _ _ _ _ H0 Eb) as H1. pose proof (begin_block_MS _ _ _ _ _ Eb) as M1.
   pose proof (deliver_txs_CI (b_txs b) c1 H1) as H2. pose proof (deliver_txs_MS (b_txs b) c1 H1) as M2.
   destruct (deliver_txs c1 (b_txs b)) as [c2 outs]. cbn in H2, M2.
   assert (M : members_stable (stk (w_chain w)) (stk c2)) by (eapply members_stable_trans; [exact M1|exact M2]).
